@@ -154,7 +154,7 @@ func inAny(l []netip.Prefix, a netip.Addr) bool {
 
 func (p *policy) isProxy(o owner) bool { return p.uids[o.UID] || p.gids[o.GID] }
 
-func (p *policy) ownerClass(f flow) string {
+func (p *policy) ownerClass(f *flow) string {
 	if f.Kind == "in" {
 		return "net"
 	}
@@ -170,7 +170,7 @@ type expectation struct {
 	forbid string // verdict must not contain this; "" = nothing forbidden
 }
 
-func (p *policy) expect(f flow, fam int, dst netip.Addr) expectation {
+func (p *policy) expect(f *flow, fam int, dst netip.Addr) expectation {
 	if f.Kind == "in" {
 		if f.Proto != "tcp" || f.Ct != "NEW" || f.Mark != 0 {
 			return expectation{clause: "open:in-not-new-tcp"}
